@@ -164,21 +164,27 @@ def run(ctx):
     gv = [(c, None) for c in fc.calls() if c.callee == CRS + "get_vertex"]
     for cp in closures_of(facts, CST):
         gv += [(c, cp) for c in fn_terms(facts, cp).calls() if c.callee == CRS + "get_vertex"]
-    arg = None
-    if len(gv) == 1:
-        arg = gv[0][0].args[1]
-        if gv[0][1] is not None:
-            arg = closure_subst(facts, gv[0][1], arg)   # the lookup sits in a closure of an iterator chain: read captures in the parent
-        gv = [gv[0][0]]
-    if arg is None:
-        run.bad("C15.S2", "triangle-frame", "expected one CRS lookup in compute_spherical_triangle", where(fc.fn["span"]))
-    else:
-        quats = {x[2] for x in walk(arg) if x[0] == "field" and x[2] in ("quat", "inverse_quat")}
-        pol = [x for x in walk(arg) if x[0] == "call" and x[1].endswith("polar::Polar::new")]
-        sgn = angle_sign(facts, pol[0], fc) if pol else None
-        run.inst("C15.S2", "triangle-plus-angle-quat", quats == {"quat"} and sgn == 1, "spherical triangle corners: gamma %s origin.angle, rotated with origin.%s" % ({1: "+", -1: "-", None: "?"}[sgn], sorted(quats)), where(gv[0].span))
-        own = all(any(y == ("param", 3) for y in walk(x)) for x in walk(arg) if x[0] == "call" and x[1].endswith("::index"))
-        run.inst("C15.S2", "triangle-own-face-frame", own, "the frame is that of the requested face", where(gv[0].span))
+    frames = []
+    for c_, cp_ in gv:
+        a_ = c_.args[1]
+        if cp_ is not None:
+            a_ = closure_subst(facts, cp_, a_)   # the lookup sits in a closure of an iterator chain: read captures in the parent
+        frames.append((c_, a_))
+    if not frames or any(a_ is None for _c, a_ in frames):
+        run.bad("C15.S2", "triangle-frame", "expected the CRS lookups of the triangle corners in compute_spherical_triangle (found %d)" % len(frames), where(fc.fn["span"]))
+    if frames and not any(a_ is None for _c2, a_ in frames):
+        # every corner lookup (one in a loop / closure, or one per corner when written out) must use the face's own frame
+        res = []
+        for _c, arg in frames:
+            quats = {x[2] for x in walk(arg) if x[0] == "field" and x[2] in ("quat", "inverse_quat")}
+            pol = [x for x in walk(arg) if x[0] == "call" and x[1].endswith("polar::Polar::new")]
+            sgn = angle_sign(facts, pol[0], fc) if pol else None
+            own = all(any(y == ("param", 3) for y in walk(x)) for x in walk(arg) if x[0] == "call" and (x[1].endswith("::index") or (x[1].endswith("::get") and len(x[2]) == 2)))
+            res.append((quats == {"quat"} and sgn == 1, own, quats, sgn))
+        run.inst("C15.S2", "triangle-plus-angle-quat", all(r[0] for r in res),
+                 "spherical triangle corners (%d lookup site(s)): gamma %s origin.angle, rotated with origin.%s" % (
+                     len(res), {1: "+", -1: "-", None: "?"}[res[0][3]], sorted(res[0][2])), where(frames[0][0].span))
+        run.inst("C15.S2", "triangle-own-face-frame", all(r[1] for r in res), "the frame is that of the requested face", where(frames[0][0].span))
     # every point inserted into the CRS vertex table is either a face axis or a ring point in the face's own frame
     # (theta + origin.angle, rotated with origin.quat) - wherever in the crs module the insertion happens
     nsites = 0
